@@ -169,6 +169,39 @@ def h_chain():
     return h
 
 
+def h_blind(what, kind, n):
+    """blind_unpack (the untyped reader behind to_python_object(try_unpack=True)) on the optimized bytes of a value: it must give the value
+    back — in particular it must not take a chain id for a PACKed expression or one address / key kind for another"""
+    from pytezos.michelson import forge as F
+    from pytezos.michelson import micheline as M
+    tag = f'{what}[{kind.decode()}]'
+
+    def h(e: Engine):
+        install(e)
+        payload = e.bytes('payload', n)
+        a = GB58(row_of(kind, n), payload)
+        try:
+            if what == 'address':
+                b = e.call(F.forge_address, [a])
+            elif what == 'key_hash':
+                b = e.call(F.forge_address, [a], dict(tz_only=True))
+            elif what == 'key':
+                b = e.call(F.forge_public_key, [a])
+            else:
+                b = e.call(F.forge_base58, [a])
+            r = e.call(M.blind_unpack, [b])
+        except RaiseEx as ex:
+            e.check(f'blind_unpack.{tag}::safety.no_exception[{type(ex.exc).__name__}]', z3.BoolVal(False))
+            return
+        if what == 'sig':
+            ok = isinstance(r, GB58) and r.row[0] in (b'sig', b'BLsig') and r.row[3] == n
+            e.check(f'blind_unpack.{tag}::ensures.same_signature_bytes', z3.And(z3.BoolVal(bool(ok)), ZB(e.bytes_eq(r.payload, payload))) if ok else z3.BoolVal(False))
+        else:
+            e.check(f'blind_unpack.{tag}::ensures.same_kind', z3.BoolVal(isinstance(r, GB58) and r.row == a.row))
+            e.check(f'blind_unpack.{tag}::ensures.identity', a.same(e, r) if isinstance(r, GB58) else z3.BoolVal(False))
+    return h
+
+
 # ------------------------------------------------------------------------------- native contracts (replay + R)
 def _mk(kind: bytes, payload: bytes) -> str:
     from pytezos.crypto.encoding import base58_encode
@@ -222,6 +255,21 @@ def native_case(case):
         a = _mk(b'Net', case['chain'])
         s = F.unforge_chain_id(F.forge_base58(a))
         return s != a, f'chain id {a} -> {s}'
+    if what == 'blind':
+        from pytezos.michelson.micheline import blind_unpack
+        from pytezos.crypto.encoding import base58_decode
+        a = _mk(kind, case['payload'])
+        sub = case['sub']
+        b = F.forge_address(a) if sub == 'address' else F.forge_address(a, tz_only=True) if sub == 'key_hash' else F.forge_public_key(a) if sub == 'key' else F.forge_base58(a)
+        try:
+            r = blind_unpack(b)
+        except Exception as ex:   # noqa
+            return True, f'blind_unpack({b.hex()}) raised {ex!r}; expected {a}'
+        if sub == 'sig':
+            ok = isinstance(r, str) and r.startswith(('sig', 'BLsig')) and base58_decode(r.encode()) == case['payload']
+        else:
+            ok = r == a
+        return (not ok), f'blind_unpack(optimized bytes of {a[:20]}… = {b.hex()[:24]}…) = {r!r:.60}'
     if what == 'type':
         return native_type(case)
     return False, 'unknown'
@@ -274,6 +322,9 @@ def _case_from_cex(job, cex):
         c.update(sig=cex.get('sig', bytes(job[2])))
     elif what == 'chain':
         c.update(chain=cex.get('chain', bytes(4)))
+    elif what == 'blind':
+        p = cex.get('payload', bytes(job[2][2]))
+        c.update(sub=job[2][0], payload=p if isinstance(p, (bytes, bytearray)) else bytes(job[2][2]))
     return c
 
 
@@ -286,6 +337,8 @@ def job(what, kind, extra=None):
         return h_key(kind)
     if what == 'sig':
         return h_sig(kind, extra)
+    if what == 'blind':
+        return h_blind(*extra)
     return h_chain()
 
 
@@ -294,6 +347,8 @@ def run(ck: Check) -> int:
     for f in (F.forge_address, F.unforge_address, F.forge_contract, F.unforge_contract, F.forge_public_key,
               F.unforge_public_key, F.forge_base58, F.unforge_signature, F.unforge_chain_id):
         ck.function(f)
+    from pytezos.michelson.micheline import blind_unpack
+    ck.function(blind_unpack)
     ck.assume('base58 strings are ghost values (row, payload); base58_encode/base58_decode/b58decode_check replaced by the contracts proved in C09')
     ck.assume('str.encode/decode inverse on entrypoint names; names contain no "%" (the separator)')
     ck.trust('PyVC encoding of the Python subset (DESIGN.md 3.2)')
@@ -312,6 +367,16 @@ def run(ck: Check) -> int:
     for k, n in SIGS:
         specs.append(('sig', k, n))
     specs.append(('chain', b'Net', None))
+    for k in ADDR:
+        if k != b'txr1':
+            specs.append(('blind', k, ('address', k, 20)))
+    for k in (b'tz1', b'tz2', b'tz3', b'tz4'):
+        specs.append(('blind', k, ('key_hash', k, 20)))
+    for k, (t, n) in KEYS.items():
+        specs.append(('blind', k, ('key', k, n)))
+    for k, n in SIGS:
+        specs.append(('blind', k, ('sig', k, n)))
+    specs.append(('blind', b'Net', ('chain', b'Net', 4)))
     jobs = [(repr(s), 'props.C10:job', s, None) for s in specs]
     for res, s in zip(run_jobs(jobs), specs):
         if 'error' in res:
@@ -379,7 +444,7 @@ def run_R(ck):
         for h in hashes(20):
             cases.append(dict(what='type', type='address', kind=k.decode(), value=_mk(k, h), cls=(h[0] < 4, h[-1] == 0)))
             if k in (b'KT1', b'tz1') and h[0] % 2 == 0:
-                cases.append(dict(what='type', type='address', kind=k.decode(), value=_mk(k, h) + '%' + rng.choice(['a', 'transfer', 'x' * 31, 'default_']),
+                cases.append(dict(what='type', type='address', kind=k.decode(), value=_mk(k, h) + '%' + rng.choice(['a', 'transfer', 'x' * 31, 'default_', 'set_default', 'xdefault', 'defaultdefault', 'Default']),
                                   cls=('ep', h[-1] == 0)))
     for k in (b'tz1', b'tz2', b'tz3', b'tz4'):
         for h in hashes(20):
